@@ -29,9 +29,10 @@ pub mod site {
     pub const USER: u32 = 12;
     pub const READDIR_ORDER: u32 = 13;
     pub const READDIR_FAULT: u32 = 14;
-    pub const NAMES: [&str; 15] = [
+    pub const SHARED: u32 = 15;
+    pub const NAMES: [&str; 16] = [
         "WalkBegin", "WalkEnd", "WorkerBegin", "WorkerEnd", "Push", "Pop", "StealOne", "Deactivate", "Activate",
-        "IsQuitNow", "QuitNow", "IdleSleep", "User", "ReaddirOrder", "ReaddirFault",
+        "IsQuitNow", "QuitNow", "IdleSleep", "User", "ReaddirOrder", "ReaddirFault", "Shared",
     ];
 }
 
